@@ -212,6 +212,7 @@ def run(chk, replay=None):
     stats = {"scripts": len(scripts), "symbols": 0, "canonical": 0, "wild_eq_ld": 0, "model_mismatch": 0, "spec_mismatch": 0, "exported_versioned": 0, "hidden": 0, "verdef_problems": 0}
     d = tempfile.mkdtemp(prefix="c32")
     obs = []
+    stats_via_command = [0]
     try:
         src = [".text"] + [f".globl {s}\n.type {s},@function\n{s}: ret" for s in SYMS]
         open(d + "/o.s", "w").write("\n".join(src) + "\n")
@@ -221,8 +222,14 @@ def run(chk, replay=None):
             return chk.finish(TRUSTED)
         for si, nodes in enumerate(scripts):
             open(d + "/s.map", "w").write(script_text(nodes))
-            rcw, ow = sh(f"cd {d} && rm -f w.so && timeout 60 {wild} -shared o.o --version-script=s.map -o w.so", timeout=90)
-            rcl, ol = sh(f"cd {d} && rm -f l.so && timeout 60 ld -shared o.o --version-script=s.map -o l.so", timeout=90)
+            # every third script reaches the linker through the VERSION command of a linker script given as an input file
+            how = "--version-script=s.map"
+            if si % 3 == 1:
+                open(d + "/v.ld", "w").write("VERSION {\n" + script_text(nodes) + "}\n")
+                how = "v.ld"
+                stats_via_command[0] += 1
+            rcw, ow = sh(f"cd {d} && rm -f w.so && timeout 60 {wild} -shared o.o {how} -o w.so", timeout=90)
+            rcl, ol = sh(f"cd {d} && rm -f l.so && timeout 60 ld -shared o.o {how} -o l.so", timeout=90)
             w = read_versions(d + "/w.so") if rcw == 0 else None
             l = read_versions(d + "/l.so") if rcl == 0 else None
             obs.append((w, l, ow[-200:], ol[-200:]))
@@ -332,6 +339,7 @@ def run(chk, replay=None):
                     chk.violation(what, rep)
         if len(samples) < 3:
             samples.append({"script": script_text(nodes), "wild": w[0], "ld": l[0]})
+    stats["via_VERSION_command"] = stats_via_command[0]
     chk.cov.update({
         "evaluations": stats["symbols"], "distinct_nontrivial": stats["exported_versioned"],
         "rule": "1-4 chained nodes; global section 1-3 patterns, local section (35% / 60%) 1-2 patterns; two thirds of the scripts use exact names and `*`-globs in global and the bare `*` in local "
